@@ -9,7 +9,8 @@
     * snapshot = "newest version not newer than stage 0's mark".
   The value history is part of the observable API (SelectValueHistory, InspectStage), and so is the rule that an
   overwrite with a value of the same non-zero length inside the current stage REPLACES the newest version instead of
-  adding one; the reference states that rule directly on the key's version list.
+  adding one; the reference states that rule directly on the key's version list.  A version that existed when the newest
+  checkpoint was handed out is never replaced (`guard`), so that RevertToCheckpoint can restore it.
 -/
 import ClientGoVerif.Model.Bytes
 import ClientGoVerif.Model.KeyFlags
@@ -109,6 +110,7 @@ structure Spec where
   cells : List Cell         -- finite map; a key occurs at most once; `present = false` = absent
   clock : Nat               -- number of versions currently remembered (all keys)
   marks : List Nat          -- stage marks, bottom first (handle h ↦ marks[h-1])
+  guard : Nat               -- clock value of the newest checkpoint handed out (0: none); older versions are never replaced
   dirty : Bool
   entryLimit : Nat
   bufLimit : Nat
@@ -117,7 +119,7 @@ structure Spec where
 namespace Spec
 
 def init : Spec :=
-  { cells := [], clock := 0, marks := [], dirty := false,
+  { cells := [], clock := 0, marks := [], guard := 0, dirty := false,
     entryLimit := Gen.MemLimits.unlimitedSize, bufLimit := Gen.MemLimits.unlimitedSize }
 
 
@@ -152,10 +154,10 @@ def canModify (marks : List Nat) (a : Nat) : Bool :=
   | some m => a > m
 
 /-- the write rule on one key's history; returns the new history and the new clock -/
-def pushOrSwap (marks : List Nat) (clock : Nat) (vs : List Version) (v : Bytes) : List Version × Nat :=
+def pushOrSwap (marks : List Nat) (guard : Nat) (clock : Nat) (vs : List Version) (v : Bytes) : List Version × Nat :=
   match vs with
   | (a, old) :: rest =>
-    if canModify marks a && old.length > 0 && old.length == v.length then ((a, v) :: rest, clock)
+    if canModify marks a && decide (a > guard) && old.length > 0 && old.length == v.length then ((a, v) :: rest, clock)
     else ((clock + 1, v) :: vs, clock + 1)
   | [] => ([(clock + 1, v)], clock + 1)
 
@@ -174,7 +176,7 @@ def writeCore (s : Spec) (k : Bytes) (v : Option Bytes) (ops : List Nat) : Spec 
   | none =>
     { s with cells := upsert s.cells k (fun c => { c with present := true, flags := flags' }), dirty := dirty' }
   | some x =>
-    let r := pushOrSwap s.marks s.clock c.versions x
+    let r := pushOrSwap s.marks s.guard s.clock c.versions x
     { s with cells := upsert s.cells k (fun c => { c with present := true, flags := flags', versions := r.1 }),
              clock := r.2, dirty := dirty' }
 
@@ -209,7 +211,7 @@ def undoCell (mark : Nat) (c : Cell) : Cell :=
       if kept.isEmpty then flagsRule c else { c with versions := kept }
 
 def undoTo (s : Spec) (mark : Nat) : Spec :=
-  { s with cells := s.cells.map (undoCell mark), clock := mark }
+  { s with cells := s.cells.map (undoCell mark), clock := mark, guard := min s.guard mark }
 
 def snapMark (s : Spec) : Nat := match s.marks.head? with | some m => m | none => s.clock
 
@@ -266,7 +268,7 @@ def step (s : Spec) : Op → Spec × Out
       match s.marks.getLast? with
       | some m => ({ (s.undoTo m) with marks := s.marks.dropLast }, .ok)
       | none => (s, .ok)
-  | .checkpoint => (s, .num s.clock)
+  | .checkpoint => ({ s with guard := s.clock }, .num s.clock)
   | .revert cp =>
     -- only checkpoints inside the current stage and not beyond the end are ever reverted to
     if cp ≤ s.clock && (match s.marks.getLast? with | some m => decide (m ≤ cp) | none => true) then (s.undoTo cp, .ok)
